@@ -52,6 +52,7 @@ type envSpec struct {
 	adopt         bool   // emulate the go-fuse bridge: add looked-up children to the parent inode
 	scenario      string // dedicated history scenario (replaces the node class in violation keys)
 	tiny          bool   // registry chunk size of a few bytes: minimal workload, no Prefetch/BackgroundFetch
+	readHeavy     bool   // three of four operations are reads (cache-pressure probes)
 	risky         bool   // configuration known to be able to kill the process: run after the other environments
 }
 
